@@ -133,9 +133,12 @@ void RouterSession::checkValidity(const char *when) {
                 if (!hit) continue;
                 if (!pathExists(c)) { probe("router.no-free-path"); continue; }
                 // classifiers for known defects (DESIGN.md section 6)
+                curRoute = r;
                 std::string sig = "through-shape" + throughShapeClass(c, r[seg - 1], r[seg], sh.poly);
+                curRoute.clear();
                 if (ortho && r.size() == 2 && (c.e[0].dirs != 15 || c.e[1].dirs != 15) && sig == "through-shape") sig += ":direction-restricted-free-end-fallback";
-                violate("C03", "interior", sig, fmt("conn %d %s after %s: segment (%g,%g)-(%g,%g) passes through shape %d;%s", kv.first, wn, when, r[seg - 1].x, r[seg - 1].y, r[seg].x, r[seg].y, sk.first, describeScene().c_str()));
+                std::string rt; for (auto &qq : r) rt += fmt("(%g,%g)", qq.x, qq.y);
+                violate("C03", "interior", sig, fmt("conn %d %s after %s: segment (%g,%g)-(%g,%g) passes through shape %d; route %s;%s", kv.first, wn, when, r[seg - 1].x, r[seg - 1].y, r[seg].x, r[seg].y, sk.first, rt.c_str(), describeScene().c_str()));
                 which = 2;
                 break;
             }
@@ -151,6 +154,18 @@ void RouterSession::checkValidity(const char *when) {
 // which known defect (if any) explains a segment through a shape
 std::string RouterSession::throughShapeClass(const Cn &c, Pt p, Pt q, const Poly &poly) {
     if (c.detachedByDelete) return ":end-detached-by-shape-deletion";
+    // KF-C03-b: the search stepped through a connection pin of the crossed (unrelated) shape -- pin vertices are ordinary
+    // visibility vertices for every connector, and the way to a pin inside a shape leads through that shape
+    for (auto &sk : shapes) if (sk.second.alive && &sk.second.poly == &poly) for (auto &pm : sk.second.pins) {
+        RectB b = bbox(poly);
+        Pt pp;
+        if (pm.prop) { pp.x = pm.xo == 0 ? b.x + pm.inside : pm.xo == 1 ? b.x + b.w - pm.inside : b.x + pm.xo * b.w; pp.y = pm.yo == 0 ? b.y + pm.inside : pm.yo == 1 ? b.y + b.h - pm.inside : b.y + pm.yo * b.h; }
+        else { pp.x = pm.xo == 0 ? b.x + pm.inside : (pm.xo == -1 || pm.xo == b.w) ? b.x + b.w - pm.inside : b.x + pm.xo; pp.y = pm.yo == 0 ? b.y + pm.inside : (pm.yo == -1 || pm.yo == b.h) ? b.y + b.h - pm.inside : b.y + pm.yo; }
+        if (ptSegDist(pp, p, q) < 1e-9) return ":via-a-connection-pin-of-the-crossed-shape";
+        // orthogonal: the segment runs along the visibility line that pin throws through its own shape
+        if (ortho && ((p.x == q.x && std::fabs(p.x - pp.x) < 1e-9) || (p.y == q.y && std::fabs(p.y - pp.y) < 1e-9))) return ":via-a-connection-pin-of-the-crossed-shape";
+        for (size_t i = 1; i < curRoute.size(); i++) if (ptSegDist(pp, curRoute[i - 1], curRoute[i]) < 1e-9) return ":via-a-connection-pin-of-the-crossed-shape";
+    }
     if (ortho) return "";
     // Degenerate contact: the segment enters and leaves the crossed shape exactly at shape vertices (vertices of the
     // crossed shape itself -- a diagonal pass -- or of shapes touching it).  libavoid's blocking test treats a touch
